@@ -60,18 +60,18 @@ Theorem globals_once_iff_dedup : forall dedupf,
      occ g_name gname_cmp (Some n) (export_globals_f true dedupf gs) = 1%nat) <-> dedupf = true.
 Proof. exact Proofs.globals_once_iff_dedup. Qed.
 
-(** Known finding (open, C11's subject): the CONTENT of the index entry of a class declared in
-    several files is merged in analysis order, which is a hash-set order today.  Reproducibility
-    of that content fails for such classes and holds for every class declared in one file.
-    (Full statement wanted: [forall parts parts', Permutation parts parts' -> merged_bases parts =
-    merged_bases parts'].)  This small content model is not part of the correspondence check. *)
-Theorem split_class_bases_refuted :
-  exists parts parts', Permutation parts parts' /\ known_split parts = true /\ merged_bases parts <> merged_bases parts'.
-Proof. exact Proofs.split_class_bases_refuted. Qed.
+(** The CONTENT of the index entry of a class declared in several files (super types,
+    description) is merged per declaration in analysis order.  It does not depend on the hash-set
+    order of the batch because [update_files_by_uri] sorts the file ids (flag regenerated from
+    crates/emmylua_code_analysis/src/lib.rs) — and only because of that. *)
+Theorem split_class_content_reproducible : forall parts parts',
+  NoDup (map cp_file parts) -> Permutation parts parts' -> merged_bases parts = merged_bases parts'.
+Proof. exact Proofs.split_class_content_reproducible. Qed.
 
-Theorem split_class_outside_known : forall parts parts',
-  Permutation parts parts' -> known_split parts = false -> merged_bases parts = merged_bases parts'.
-Proof. exact Proofs.split_class_outside_known. Qed.
+Theorem split_class_reproducible_iff_sorted : forall sorted,
+  (forall parts parts', NoDup (map cp_file parts) -> Permutation parts parts' ->
+     merged_bases_f sorted parts = merged_bases_f sorted parts') <-> sorted = true.
+Proof. exact Proofs.split_class_reproducible_iff_sorted. Qed.
 
 (** non-vacuity: a main module without return value, a std module, a library module with the
     same name as a main one; a global assigned in two main files and a library global *)
